@@ -802,7 +802,7 @@ class DriverLubaRs232(DriverSerialBase):
                 # Decode the command, for logging and debugging
                 try:
                     dali_command = command.Command.from_frame(
-                        frame.Frame(bits=8 * len(tx_dali), data=tx_dali),
+                        frame.ForwardFrame(8 * len(tx_dali), tx_dali),
                         devicetype=self._prev_tx_enable_dt,
                         dev_inst_map=self._dev_inst_map,
                     )
@@ -861,8 +861,8 @@ class DriverLubaRs232(DriverSerialBase):
                 else:
                     # A 16 or 24-bit frame is an intercepted DALI command,
                     # it can be deciphered into a Command object
-                    dali_frame = frame.Frame(
-                        bits=8 * len(rx_dali), data=rx_dali
+                    dali_frame = frame.ForwardFrame(
+                        8 * len(rx_dali), rx_dali
                     )
                     try:
                         dali_command = command.Command.from_frame(
@@ -874,6 +874,7 @@ class DriverLubaRs232(DriverSerialBase):
                         _LOG.error(
                             f"Failed to decode DALI command! Frame: {dali_frame}"
                         )
+                        self._prev_rx_enable_dt = 0
                         return
                     if isinstance(
                         dali_command, dali.gear.general.EnableDeviceType
@@ -1548,8 +1549,8 @@ class DriverSCIRS232(DriverSerialBase):
             else:
                 # A 16 or 24-bit frame is an intercepted DALI command,
                 # it can be deciphered into a Command object
-                dali_frame = frame.Frame(
-                    bits=8 * len(received_data), data=received_data
+                dali_frame = frame.ForwardFrame(
+                    8 * len(received_data), received_data
                 )
                 try:
                     dali_command = command.Command.from_frame(
@@ -1561,6 +1562,7 @@ class DriverSCIRS232(DriverSerialBase):
                     _LOG.error(
                         f"Failed to decode DALI command! Frame: {dali_frame}"
                     )
+                    self._prev_rx_enable_dt = 0
                     return
                 if isinstance(
                     dali_command, dali.gear.general.EnableDeviceType
